@@ -183,6 +183,17 @@ theorem C18_report_roundtrip (s : Sig) (hwf : s.wf = true) (c : Call) (o i : Boo
   rw [symInitArgs_json s hwf F hB.sig hB.vaSome]
   exact C18_report s hwf c o i F n hc ha hF hn
 
+/-- The round-tripped functor and the clone also CALL like the original: `from_json(to_json(F))()`
+and `F.clone()()` have the outcome of `F()`, i.e. (by `C18_construct`) of `f(*a, **k)`. -/
+theorem C18_roundtrip_call {R : Type} (body : Assignment → R) (s : Sig) (hwf : s.wf = true) (c : Call)
+    (o i : Bool) (F : Functor) (n : Named) (hc : c.wf = true) (ha : AvoidsVarargsName s c)
+    (hF : functorInit s c o i = .ok F) (hn : nameArgs s c = .ok n) :
+    (functorCall true F.jsonRoundTrip Call.empty none none).map body = (pyCall s c).map body ∧
+    (functorCall true F.clone Call.empty none none).map body = (pyCall s c).map body := by
+  obtain ⟨hB, _, _⟩ := built_of_init s hwf c o i F n hc ha hF hn
+  rw [functorCall_json s hwf F n hB]
+  exact ⟨C18_construct body s hwf c o i F n hc ha hF hn, C18_construct body s hwf c o i F n hc ha hF hn⟩
+
 /-! ### Direct construction of a symbolized class -/
 
 /-- `Cls(*a, **k)` for `Cls = pg.symbolize(UserClass)` binds as the user's `__init__` does: what
@@ -266,6 +277,84 @@ theorem C18_call_effective {R : Type} (body : Assignment → R) (s : Sig) (hwf :
       rw [pyCall_toCall s hwf _ hw]
       exact C18_call body s hwf c1 c2 o i o? i? F n1 n2 h1 h2 ha1 ha2 hF hn1 hn2
         (hcompat.imp id (fun h => h n1 n2 hn1 hn2))
+
+/-! ### Late binding on the functor object (rebind / setattr / del before the call) -/
+
+/-- For every functor built from `c₁` and every admissible sequence of late-binding operations
+(named parameters, `**kwargs` entries, the `*args` list; `del`): the subsequent call — with any
+call-time arguments `c₂`, override / ignore options — behaves as the language's binding of the
+arguments the re-bound functor REPORTS (`Named.late` applied to the supplied arguments), merged
+with the call-time ones. In particular `*args` / `**kwargs` entries bound after construction reach
+the wrapped function. -/
+theorem C18_rebound_call {R : Type} (body : Assignment → R) (s : Sig) (hwf : s.wf = true)
+    (c1 c2 : Call) (o i : Bool) (o? i? : Option Bool) (F : Functor) (n1 n2 : Named) (ops : List LateOp)
+    (h1 : c1.wf = true) (h2 : c2.wf = true)
+    (ha1 : AvoidsVarargsName s c1) (ha2 : AvoidsVarargsName s c2)
+    (hops : ∀ op ∈ ops, LateOp.ok s op)
+    (hF : functorInit s c1 o i = .ok F) (hn1 : nameArgs s c1 = .ok n1)
+    (hn2 : nameArgs s (if i?.getD i = true then dropExtras s c2 else c2) = .ok n2)
+    (hcompat : o?.getD o = true ∨ conflicts (ops.foldl (Named.late s) n1) n2 = false) :
+    (functorCall true (ops.foldl Functor.late F) c2 o? i?).map body
+      = (toPyE (complete s (mergeNamed (ops.foldl (Named.late s) n1) n2))).map body := by
+  obtain ⟨hB, ho, hi⟩ := built_of_init s hwf c1 o i F n1 h1 ha1 hF hn1
+  obtain ⟨hB', ho', hi'⟩ := built_late s F n1 hB ops hops
+  rw [functorCall_eq s hwf _ _ n2 hB' c2 o? i? h2 ha2 (by rw [hi', hi]; exact hn2)
+    (by rw [ho', ho]; exact hcompat)]
+
+/-- The re-bound functor reports exactly those arguments. -/
+theorem C18_rebound_report (s : Sig) (hwf : s.wf = true) (c1 : Call) (o i : Bool) (F : Functor) (n1 : Named)
+    (ops : List LateOp) (h1 : c1.wf = true) (ha1 : AvoidsVarargsName s c1)
+    (hops : ∀ op ∈ ops, LateOp.ok s op)
+    (hF : functorInit s c1 o i = .ok F) (hn1 : nameArgs s c1 = .ok n1) :
+    symInitArgs (ops.foldl Functor.late F) = reportNamed s (ops.foldl (Named.late s) n1) := by
+  obtain ⟨hB, _, _⟩ := built_of_init s hwf c1 o i F n1 h1 ha1 hF hn1
+  obtain ⟨⟨hsig, _, hnamed, hextra, _, hva, _, _⟩, _, _⟩ := built_late s F n1 hB ops hops
+  have e1 : ∀ p ∈ s.params, reportOne (kget (ops.foldl Functor.late F).bound) p
+      = reportOne (kget (ops.foldl (Named.late s) n1).named) p := by
+    intro p hp
+    have hpn : s.names.contains p.name = true := by
+      apply List.contains_iff_mem.2
+      simp only [Sig.params, List.mem_append] at hp
+      simp only [Sig.names, Sig.posNames, Sig.kwNames, List.mem_append, List.mem_map]
+      exact hp.imp (fun h => ⟨p, h, rfl⟩) (fun h => ⟨p, h, rfl⟩)
+    unfold reportOne
+    rw [← hnamed, kget_filter (fun k => s.names.contains k), hpn]; rfl
+  unfold symInitArgs reportArgs reportNamed reportWith
+  simp only [hsig, hva, hextra]
+  rw [List.map_congr_left (fun p hp => e1 p (List.mem_append_left _ hp)),
+      List.map_congr_left (fun p hp => e1 p (List.mem_append_right _ hp))]
+
+/-! ### Call-time member overrides are per object and per thread -/
+
+/-- An invocation of functor `A` (in thread `t`) never changes what the members of another functor
+object — or of `A` itself seen from another thread — resolve to, whatever invocations are already
+active; and after `A` returns everything resolves as before. -/
+theorem C18_override_isolation (attrs : Nat → KW) (st : OvStore) (a t b t' : Nat) (kw : KW) (k : Name)
+    (h : ¬ (b = a ∧ t' = t)) :
+    resolve attrs (st.enter a t kw) b t' k = resolve attrs st b t' k ∧
+    resolve attrs (st.enter a t kw).exit b t' k = resolve attrs st b t' k :=
+  ⟨resolve_enter_other attrs st a t b t' kw k h, by rw [exit_enter]⟩
+
+/-- Inside its own invocation the functor sees the call-time value, else its bound argument —
+`None` / falsy values included (the value is looked up, not tested for truth). -/
+theorem C18_override_own (attrs : Nat → KW) (st : OvStore) (a t : Nat) (kw : KW) (k : Name) :
+    resolve attrs (st.enter a t kw) a t k = (match kget kw k with
+      | some v => some v
+      | none => kget (attrs a) k) :=
+  resolve_enter_self attrs st a t kw k
+
+/-- Isolation for the variant with one `threading.local` shared by all functor objects. -/
+def C18_sharedTLS_isolation_Full : Prop :=
+  ∀ (attrs : Nat → KW) (st : OvStore) (a t b t' : Nat) (kw : KW) (k : Name), ¬ (b = a ∧ t' = t) →
+    resolveSharedTLS attrs (st.enter a t kw) b t' k = resolveSharedTLS attrs st b t' k
+
+/-- `Combine(x=1, other=Scale(x=5))()`: while Combine (object 1) executes with `x = 1`, reading
+`other.x` (object 2) through a shared store gives 1 instead of 5. -/
+theorem C18_sharedTLS_counterexample : ¬ C18_sharedTLS_isolation_Full := by
+  intro h
+  have := h (fun o => if o = 2 then [(0, 5)] else [(0, 1)]) [] 1 0 2 0 [(0, 1)] 0 (by decide)
+  revert this
+  decide
 
 /-! ### Histories of rebinds on a symbolized class -/
 
